@@ -112,6 +112,21 @@ SCENARIOS = {
                                      ('alloc_put', 38, cons(3, 1, [(4, [(2, 5)])], 38))]),
         ('same-traits-vs-aggregates', [('traits_set', 39, 1, G[1], [100002]), ('aggs_set', 39, 1, G[1], [1])]),
         ('claim-vs-inventory-put', [('alloc_put', 39, cons(5, None, [(6, [(0, 1)])])), ('inv_put', 39, 6, G[6], inv(0, 8))]),
+        # requests that derive the generation themselves (POST / DELETE inventory, DELETE traits) racing a guarded write
+        ('inventory-post-vs-traits', [('inv_post', 39, 3, inv(0, 4)), ('traits_set', 39, 3, G[3], [100002])]),
+        ('inventory-delete-vs-traits', [('inv_delete', 6, 0), ('traits_set', 39, 6, G[6], [100002])]),
+        ('traits-delete-vs-inventory-put', [('traits_delete', 39, 1), ('inv_put', 39, 1, G[1], inv(0, 16))]),
+        ('inventory-delete-all-vs-aggregates', [('inv_delete_all', 39, 6), ('aggs_set', 39, 6, G[6], [2])]),
+    ],
+    'C11': [
+        # reads after interleaved writes: the three views of a consumer's holdings must agree (no duplicated allocation record)
+        ('post-new-consumers-vs-put', [('alloc_post', 39, [cons(5, None, [(1, [(0, 1)])]), cons(4, None, [(1, [(2, 5)])])]),
+                                       ('alloc_put', 39, cons(2, 1, [(1, [(0, 2)])]))]),
+        ('move-vs-put', [('alloc_post', 39, [cons(3, 1, []), cons(5, None, [(1, [(0, 2)]), (4, [(2, 10)])])]),
+                         ('alloc_put', 39, cons(2, 1, [(1, [(0, 1)])]))]),
+        ('reshape-new-consumer-vs-inventory', [('reshape', 39, [(6, G[6], [inv(0, 4), inv(1, 64)])], [cons(5, None, [(6, [(1, 8)])])]),
+                                               ('alloc_put', 39, cons(2, 1, [(6, [(0, 1)])]))]),
+        ('put-new-consumer-vs-traits', [('alloc_put', 39, cons(5, None, [(1, [(0, 1), (2, 10)])])), ('traits_set', 39, 1, G[1], [100001])]),
     ],
     'C12': [
         ('delete-vs-put-same-consumer', [('alloc_delete', 2), ('alloc_put', 39, cons(2, 1, [(1, [(0, 1)])]))]),
@@ -168,6 +183,31 @@ def judge(pid, scn, obs, dump, start_dump):
             if g < c0[c] + n:
                 v.append(('generation', 'consumer %d was written by %d successful requests but its generation went from %d to %d'
                           % (c, n, c0[c], g)))
+    # every successful request of these scenarios CHANGES its provider (the scenarios are written that way, except the one
+    # named below): the provider's generation moved at least once per successful changing request
+    if scn.name not in ('same-traits-vs-aggregates',):
+        bump = collections.Counter()
+        for op, o in zip(scn.requests, obs):
+            if o[0] < 300:
+                if op[0] in ('inv_post', 'inv_put', 'inv_set', 'traits_set', 'traits_delete', 'inv_delete_all'):
+                    bump[op[2]] += 1
+                elif op[0] == 'inv_delete':
+                    bump[op[1]] += 1
+                elif op[0] == 'aggs_set' and op[1] >= 19:
+                    bump[op[2]] += 1
+        g1 = {r[0]: r[2] for r in dump[0]}
+        for u, n in bump.items():
+            if u in g0 and u in g1 and g1[u] < g0[u] + n:
+                v.append(('generation', 'provider %d was changed by %d successful requests but its generation went from %d to %d'
+                          % (u, n, g0[u], g1[u])))
+    # one record per (consumer, provider, class): the reads of a consumer's holdings, of a provider's allocations and of its
+    # usages are all computed from these records and disagree when one is duplicated
+    rows = collections.Counter((a[0], a[1], a[2]) for a in dump[2])
+    for key, n in rows.items():
+        if n > 1:
+            v.append(('duplicate', 'consumer %d holds %d allocation records of class %d on provider %d: usages count them all, '
+                      'GET /allocations/{consumer} shows one' % (key[0], n, key[2], key[1])))
+            break
     # an accepted allocation write took effect completely when nobody else names its consumer
     for op, o in zip(scn.requests, obs):
         if o[0] < 300:
